@@ -5,4 +5,4 @@ From Verif Require Import Lib.Bytes Gen.GenNetworks Model.CoinSelect Model.TxCre
 Extraction Language OCaml.
 Extraction "../ocaml/c07_model.ml" bz zb lib_select_inputs tx_create send_gen sweep_gen tx_bumpfee wallet_bumpfee
   calculate_fee estimate_size fee_of rate_of net_by_index nw_dust_amount nw_fee_min nw_fee_max
-  h_run h_empty spendable.
+  h_run h_step h_empty spendable.
